@@ -88,6 +88,20 @@ func (d DataSpec) Bytes() []byte {
 		for i := range b {
 			b[i] = unit[i%p]
 		}
+	case "lowperiod":
+		// periodic like "period", but the unit is spelled with two or three byte values only
+		p := d.Period
+		if p <= 0 {
+			p = 1
+		}
+		alpha := 2 + int(d.Seed%2)
+		unit := make([]byte, p)
+		for i := range unit {
+			unit[i] = byte('a' + r.Intn(alpha))
+		}
+		for i := range b {
+			b[i] = unit[i%p]
+		}
 	case "tokendense":
 		// four-byte matches separated by fresh literals: very many tokens per input byte
 		for i := 0; i < n; {
